@@ -111,6 +111,16 @@ CHECKS = {
         note=TRUST + "preprocess/callParserFunction/parent equivalences are decided by execution (they share the expander), "
              "not by theorem; lupa, the Lua VM and sandbox files exercised not modelled; mw.ustring stubbed.",
         ref="DESIGN.md section 4 C08"),
+    "C02": dict(
+        technique="Coq proof (stack machine = declarative nesting model for every heading/rule/content sequence) + tree correspondence; list clause by reference oracle",
+        text="Theorem c02_sections_follow_nesting_model: for every document of headings, content blocks and rules the stack "
+             "machine shaped like subtitle_start_fn/hline_fn produces exactly the tree of the right-to-left 'a section absorbs "
+             "what follows' specification (proved via the attach bridge). The model is tied to parser.py by comparing the "
+             "section/rule/paragraph structure of real parse trees (exhaustive heading sequences to length 3-4, random to 12 "
+             "blocks, 17 balanced fillers) inside Coq. PARTIAL: list nesting (exhaustive marker sequences of depth<=3 to 2-3 "
+             "lines, random to depth 4) is decided by the reference written from the property text, not by a theorem.",
+        note=TRUST + "tokenizer and inline handlers are glue under the diff.",
+        ref="DESIGN.md section 4 C02"),
 }
 
 NOT_YET = "check not built yet in this round (planned, see DESIGN.md section 8)"
